@@ -126,6 +126,9 @@ def deliver(st: State, gen, which, ops, out, expected):
     st.bytes[which] = raw_b
     if sym is None:
         st.not_tlv = st.not_tlv or which
+    elif which == "m4":
+        # the server proof is compared as an integer
+        sym = [(t, st.U.abstract_int(v) if t == T_PROOF else v) for t, v in sym]
     st.sym[which] = None if sym is None else reply_term(sym)
     if ops:
         st.mutated.add(which)
